@@ -49,7 +49,7 @@ func replay(t *rt.Trace, name string, beh []step, coord bool, rng *rand.Rand, st
 		rt.Fatalf("c17: behaviour %s does not start with Init", name)
 	}
 	wof := beh[0].Wof
-	t.Reset(rt.M{"name": name, "shared": wof[0] == wof[1]})
+	t.Reset(rt.M{"name": name, "wof": wof})
 	y := newSys(t, wof, func() bool { return rng.Intn(5) == 0 })
 	if coord {
 		y.useCoordinator(rng)
@@ -179,7 +179,7 @@ steps:
 // is recorded at the moment it happens and the trace specification (which places the unlogged steps freely) decides.
 func replayRace(t *rt.Trace, name string, beh []step, coord bool, rng *rand.Rand, st *stats) {
 	wof := beh[0].Wof
-	t.Reset(rt.M{"name": name, "shared": wof[0] == wof[1], "race": true})
+	t.Reset(rt.M{"name": name, "wof": wof, "race": true})
 	y := newSys(t, wof, func() bool { return rng.Intn(5) == 0 })
 	if coord {
 		y.useCoordinator(rng)
